@@ -146,7 +146,9 @@ def gen_case(rng, i):
                 return rng.choice([0.0, 0.5, -0.5])
             return math.tanh(rng.gauss(0, 1.5))
 
-        acts = [[min(max(act(), -(1 - 1e-4)), 1 - 1e-4) for _ in range(d)] for _ in range(b)]
+        near = rng.random() < 0.35   # actions tanh(u) with |u| up to 16: |a| up to 1 - 1e-13 in float64
+        lim = 1 - 1e-13 if near else 1 - 1e-4
+        acts = [[min(max(math.tanh(rng.choice([-1, 1]) * rng.uniform(5, 16)) if (near and rng.random() < 0.5) else act(), -lim), lim) for _ in range(d)] for _ in range(b)]
         c.update(d=d, log_std=ls, mean=mean, actions=acts, epsilon=rng.choice([1e-6, 1e-6, 1e-6, 1e-4, 1e-8, 0.0]))
     elif fam == "categorical":
         n = rng.randint(2, 8)
@@ -168,7 +170,8 @@ def gen_case(rng, i):
         latent = [[rng.choice([rng.uniform(-2, 2), rng.uniform(-2, 2), 0.0]) for _ in range(k)] for _ in range(b)]
         mean = [[rng.uniform(-2, 2) for _ in range(d)] for _ in range(b)]
         if squash:
-            acts = [[min(max(math.tanh(rng.gauss(0, 1.5)) if rng.random() < 0.7 else rng.choice([-1, 1]) * (1 - 10 ** (-rng.uniform(1, 4))), -(1 - 1e-4)), 1 - 1e-4)
+            lim = 1 - 1e-13 if rng.random() < 0.35 else 1 - 1e-4
+            acts = [[min(max(math.tanh(rng.gauss(0, 1.5)) if rng.random() < 0.6 else rng.choice([-1, 1]) * (math.tanh(rng.uniform(5, 16)) if lim > 1 - 1e-5 else 1 - 10 ** (-rng.uniform(1, 4))), -lim), lim)
                      for _ in range(d)] for _ in range(b)]
         else:
             acts = [[mean[r][j] + rng.gauss(0, 1.0) for j in range(d)] for r in range(b)]
@@ -551,7 +554,9 @@ def run_gsde(c, out):
         if squash:
             out.goal("gsde-logprob-squashed", f"gsde_logprob_squashed {R(FEPS)} {R(eps)} {RL(x)} {RL(m)} {cols} {RL(a)}", lp[r].item(), r)
             want = sum(o_normal(m[j], sig[j], math.atanh(a[j])) - math.log(1 - a[j] ** 2 + eps) for j in range(d))
-            out.oracle("gsde-logprob-squashed", want, lp[r].item(), rel=1e-8)
+            out.checks += 1
+            if not (math.isfinite(lp[r].item()) and close(want, lp[r].item(), 1e-8)):
+                out.problems.append(("oracle-gsde-logprob-squashed", f"gsde-logprob-squashed: log_prob({a}) = {lp[r].item()!r}, log density at the GIVEN action (pre-squash {[math.atanh(v) for v in a]}) = {want!r}"))
         else:
             out.goal("gsde-logprob", f"gsde_logprob {R(eps)} {RL(x)} {RL(m)} {cols} {RL(a)}", lp[r].item(), r)
             out.oracle("gsde-logprob", sum(o_normal(m[j], sig[j], a[j]) for j in range(d)), lp[r].item())
@@ -886,6 +891,82 @@ def run_api_audit(out, rng):
         out.oracle(f"{name}-float32-logprob", f([float(np.float32(0.1)), 0.5]), float(lp[0]), rel=1e-5)
 
 
+
+# ---------------------------------------------------------------- squashed actions close to +-1 (third-round seed)
+def run_near_boundary(out, rng):
+    """both squashed families with actions tanh(u), |u| up to 16 in float64 (|a| up to 1 - 1e-13) and float32 actions up to
+    the last float below 1: log_prob at the GIVEN action vs the model (Interval goals) and the float64 oracle, plus a density
+    RATIO between two distributions that differ only in their mean (Jacobian and epsilon cancel)"""
+    th, D = _imports()
+    import numpy as np
+
+    eps = 1e-6
+    variants = [("squashed", None)] + [("gsde", (full, expln)) for full in (True, False) for expln in (True, False)]
+    for fam, opt in variants:
+        d, k, b = 2, 2, 4
+        us = [[rng.choice([-1, 1]) * rng.choice([2.0, 5.0, 7.5, 9.0, 12.0, rng.uniform(7.3, 16.0), 16.0]) for _ in range(d)] for _ in range(b)]
+        acts = [[min(max(math.tanh(u), -(1 - 1e-13)), 1 - 1e-13) for u in row] for row in us]
+        mean1 = [[rng.uniform(-2, 2) for _ in range(d)] for _ in range(b)]
+        mean2 = [[m + rng.choice([-1.0, 0.5, 1.5]) for m in row] for row in mean1]
+        if fam == "squashed":
+            ls = [rng.uniform(-1, 1.5) for _ in range(d)]
+            sig = [[math.exp(s_) for s_ in ls] for _ in range(b)]
+
+            def make(mean, dtype):
+                dist = D.SquashedDiagGaussianDistribution(d, epsilon=eps)
+                return dist.proba_distribution(th.tensor(mean, dtype=dtype), th.tensor(ls, dtype=dtype))
+
+            expr = lambda r: f"squashed_logprob {R(FEPS)} {R(eps)} {gp(mean1[r], ls)} {RL(acts[r])}"  # noqa: E731
+        else:
+            full, expln = opt
+            lsd = [[rng.choice([rng.uniform(-1, 1.5), 0.0]) for _ in range(d if full else 1)] for _ in range(k)]
+            lat = [[rng.uniform(-2, 2) for _ in range(k)] for _ in range(b)]
+            ls_of = lambda i, j: lsd[i][j if full else 0]  # noqa: E731
+            std = [[(o_expln(ls_of(i, j), eps) if expln else math.exp(ls_of(i, j))) for j in range(d)] for i in range(k)]
+            sig = [[math.sqrt(sum(lat[r][i] ** 2 * std[i][j] ** 2 for i in range(k)) + eps) for j in range(d)] for r in range(b)]
+
+            def make(mean, dtype):
+                dist = D.StateDependentNoiseDistribution(d, full_std=full, use_expln=expln, squash_output=True, epsilon=eps)
+                dist.proba_distribution_net(latent_dim=k)
+                l_t = th.tensor(lsd, dtype=dtype)
+                dist.sample_weights(l_t, batch_size=b)
+                return dist.proba_distribution(th.tensor(mean, dtype=dtype), l_t, th.tensor(lat, dtype=dtype))
+
+            be = "true" if expln else "false"
+            cols = "[" + "; ".join("[" + "; ".join(f"gsde_get_std {be} {R(eps)} {R(ls_of(i, j))}" for i in range(k)) + "]" for j in range(d)) + "]"
+            expr = lambda r: f"gsde_logprob_squashed {R(FEPS)} {R(eps)} {RL(lat[r])} {RL(mean1[r])} {cols} {RL(acts[r])}"  # noqa: E731
+        name = fam if opt is None else f"gsde-full{int(opt[0])}-expln{int(opt[1])}"
+        # float64
+        a_t = t64(th, acts)
+        lp1, lp2 = make(mean1, th.float64).log_prob(a_t).tolist(), make(mean2, th.float64).log_prob(a_t).tolist()
+        for r in range(b):
+            u = [math.atanh(x) for x in acts[r]]
+            want = sum(o_normal(mean1[r][j], sig[r][j], u[j]) - math.log(1 - acts[r][j] ** 2 + eps) for j in range(d))
+            out.checks += 1
+            if not (math.isfinite(lp1[r]) and close(want, lp1[r], 1e-8)):
+                out.problems.append((f"oracle-{name}-logprob-near-boundary", f"{name}: log_prob({acts[r]}) = {lp1[r]!r} (pre-squash {u}), log density at the GIVEN action (with the code's +epsilon) = {want!r}; "
+                                                                            f"mean {mean1[r]}, std {sig[r]}"))
+            ratio = sum((-(u[j] - mean1[r][j]) ** 2 + (u[j] - mean2[r][j]) ** 2) / (2 * sig[r][j] ** 2) for j in range(d))
+            out.checks += 1
+            if not close(ratio, lp1[r] - lp2[r], 1e-7):
+                out.problems.append((f"oracle-{name}-density-ratio-near-boundary", f"{name}: log_prob_mean1(a) - log_prob_mean2(a) = {lp1[r] - lp2[r]!r} at a = {acts[r]}, Gaussian log-density ratio at atanh(a) = {ratio!r}"))
+            if r < 2 and math.isfinite(lp1[r]):
+                out.goal(f"{'squashed' if fam == 'squashed' else 'gsde'}-logprob-near-boundary", expr(r), lp1[r])
+        # float32: actions up to the last float below 1; the clamp at 1 - finfo(float32).eps is part of the model
+        f32 = np.float32
+        feps32 = float(np.finfo(np.float32).eps)
+        a32 = [[float(min(max(f32(math.tanh(min(abs(u_), 9.0)) * (1 if u_ > 0 else -1)), -np.nextafter(f32(1), f32(0))), np.nextafter(f32(1), f32(0)))) for u_ in row] for row in us]
+        lp32 = make(mean1, th.float32).log_prob(th.tensor(a32, dtype=th.float32)).tolist()
+        for r in range(b):
+            ac = [min(max(x, -1 + feps32), 1 - feps32) for x in a32[r]]
+            u = [math.atanh(x) for x in ac]
+            corr_at = a32[r] if fam == "squashed" else ac   # Squashed uses the given action, the gSDE bijector tanh(inverse(a))
+            want = sum(o_normal(float(f32(mean1[r][j])), sig[r][j], u[j]) - math.log(1 - corr_at[j] ** 2 + eps) for j in range(d))
+            out.checks += 1
+            if not (math.isfinite(lp32[r]) and abs(want - lp32[r]) <= 0.05 + 2e-3 * abs(want)):
+                out.problems.append((f"oracle-{name}-float32-logprob-near-boundary", f"{name}: float32 log_prob({a32[r]}) = {lp32[r]!r}, model with the clamp at 1 - {feps32} = {want!r}"))
+
+
 def run_statistics(out, seed):
     """samples follow the density: 6-sigma moment / frequency tests on fixed configurations"""
     th, D = _imports()
@@ -1084,6 +1165,7 @@ def main():
     try:
         run_integrals(glob)
         run_api_audit(glob, chk.rng)
+        run_near_boundary(glob, chk.rng)
         run_statistics(glob, chk.seed)
     except Exception as e:
         glob.problems.append(("oracle-global-exception", f"{type(e).__name__}: {e}"))
